@@ -97,6 +97,8 @@ def unbox(spec: Spec, t, st: State, facts: bool = True) -> Sym:
     if k == "int":
         if _is_app_of(t, mkI):
             return S_int(t.arg(0))
+        if facts:
+            st.assume(t != NONE)
         return S_int(unI(t))
     if k == "bool":
         if _is_app_of(t, mkB):
@@ -107,9 +109,12 @@ def unbox(spec: Spec, t, st: State, facts: bool = True) -> Sym:
     if k == "seq":
         if (_is_app_of(t, mkL) or _is_app_of(t, mkT)):
             return Sym("seq", t.arg(0), spec)
+        if facts:
+            st.assume(t != NONE)
         return Sym("seq", unS(t), spec)
     if k == "obj":
         if facts:
+            st.assume(t != NONE)
             st.assume(isa(t, spec.arg))
         return S_val(t, spec)
     if k == "opt":
